@@ -251,4 +251,49 @@ def gen_guards():
     return text, {"guards": out}
 
 
-ALL = [("Schema", gen_schema), ("Guards", gen_guards)]
+def lean_bytes(b: bytes) -> str:
+    return "[" + ", ".join(f"0x{x:02x}" for x in b) + "]"
+
+
+def load_script(name, path):
+    import importlib.util
+    import sys
+    spec = importlib.util.spec_from_file_location(name, path)
+    mod = importlib.util.module_from_spec(spec)
+    sys.modules[name] = mod
+    spec.loader.exec_module(mod)
+    return mod
+
+
+def gen_consts():
+    """constants read behaviourally: the AAD the encrypt script hands to the KMS, algorithm enums, the DNS namespace"""
+    import os
+    import uuid
+    from pathlib import Path
+    repo = Path(os.environ.get("REPO", "/repo"))
+    enc = load_script("verif_encrypt_script", repo / "ncs" / "encrypt_script.py")
+    sig = load_script("verif_sign_script", repo / "ncs" / "sign_script.py")
+    captured = {}
+
+    class StubKMS:
+        def encrypt(self, plaintext, key_name, context, aad):
+            captured["aad"] = bytes(aad)
+            return b"\x00" * 12, b"\x00" * 16, b""
+
+    e = enc.Encryptor()
+    e.kms = StubKMS()
+    e.cose_kw_alg = enc.SuitCoseEncryptAlgorithms.COSE_ALG_DIRECT.value
+    e.generate_kms_artifacts(b"", "k", None)
+    enc_algs = [(m.name, m.value) for m in enc.SuitCoseEncryptAlgorithms]
+    sign_algs = [(m.name, m.value) for m in sig.SuitCoseSignAlgorithms]
+    text = ("import SuitVerif.Bytes\n/-! GENERATED by harness/extract.py: constants of ncs/encrypt_script.py, ncs/sign_script.py and the uuid module, read at run time. -/\n"
+            "namespace SuitVerif.Generated\nopen SuitVerif\n\n"
+            f"/-- the Enc_structure bytes `generate_kms_artifacts` passes to the KMS as additional authenticated data -/\ndef aadLiteral : Bytes := {lean_bytes(captured['aad'])}\n\n"
+            "def coseEncryptAlgs : List (String × Int) := [" + ", ".join(f"({lean_str(n)}, {lean_int(v)})" for n, v in enc_algs) + "]\n\n"
+            "def coseSignAlgs : List (String × Int) := [" + ", ".join(f"({lean_str(n)}, {lean_int(v)})" for n, v in sign_algs) + "]\n\n"
+            f"def namespaceDNS : Bytes := {lean_bytes(uuid.NAMESPACE_DNS.bytes)}\n\n"
+            "end SuitVerif.Generated\n")
+    return text, {"aad": captured["aad"].hex()}
+
+
+ALL = [("Schema", gen_schema), ("Guards", gen_guards), ("Consts", gen_consts)]
